@@ -113,10 +113,7 @@ func newLaSim(r *sim.Run) *laSim {
 	if err != nil {
 		r.HarnessFail("estimator: %v", err)
 	}
-	vz := NewResourceVectorizerFromArgs(args)
-	if len(vz) != 2 || vz[0] != corev1.ResourceCPU || vz[1] != corev1.ResourceMemory {
-		r.HarnessFail("unexpected vectorizer %v", vz)
-	}
+	vz := NewResourceVectorizerFromArgs(args) // (observations are read by resource name, see liveQuery: no layout is assumed)
 	s.cache = newPodAssignCache(est, vz, args)
 	s.pl = &Plugin{args: args, vectorizer: vz, filterProfile: NewUsageThresholdsFilterProfile(args, vz), estimator: est, podAssignCache: s.cache}
 	for i := range cfg.Nodes {
@@ -702,10 +699,14 @@ func (s *laSim) cycle(op laOp) {
 func (s *laSim) unreserve(t *bindTask) {
 	ctx := context.TODO()
 	s.lockPods("pod-lock", t.uid)
+	// (the pod is locked: no informer event for it is delivered between this look at the view and the end of the call)
+	boundHere := false
 	if v := s.view[t.name]; v != nil && v.UID == t.uid && v.Node == t.node && !v.terminated() {
 		// history class of a recorded finding: the roll-back arrives after the informer already delivered the pod as
 		// bound to this very node (lost bind acknowledgement, or another scheduler bound it to the same node)
 		s.r.Tag("unreserve-after-binding-visible")
+		s.r.Probe("unreserve-after-binding-visible")
+		boundHere = true
 	}
 	s.mutate([]string{t.node}, "", "", func() {
 		s.pl.Unreserve(ctx, framework.NewCycleState(), t.assumed.obj, t.node)
@@ -715,7 +716,15 @@ func (s *laSim) unreserve(t *bindTask) {
 		}
 	}, func() {
 		delete(s.assumed, t.uid)
-		s.mRemove(t.node, t.uid)
+		// The expectation follows the statement ("the pods currently assigned to the node"), not the code: a roll-back
+		// of the reservation takes the pod off the node unless the informer has already shown it bound there - then
+		// its presence follows the informer and the entry (object, assign time) stays as the events so far left it
+		// (the informer's object, or the assumed one when the Reserve came after the informer's update: two schedulers).
+		// The unchanged code drops the pod in that history too (recorded finding, tagged above): there the membership
+		// oracle reports it; a tree that keeps the pod is right.
+		if !boundHere {
+			s.mRemove(t.node, t.uid)
+		}
 	})
 	s.unlockPods(t.uid)
 	s.r.Event("unreserve %s %s", t.name, t.node)
